@@ -2,6 +2,12 @@
 Bend (angle) terms, kinds A and B: regularity of the energy expressions, the per-slot identity
 "tangent of the hand-written energy = machine-translated gradient program", closed forms against the
 specification geometry, and the resulting partial-derivative statements.
+
+Both `add_gradient` bodies divide by `sin θ = √(1 − cos² θ)` and return early — adding nothing — when that
+value is not positive (`Prog.guard`); `angle_value` clamps the cosine to `[-1, 1]` before `acos`. Under
+`BendRegular` the guard is positive and the clamp is the identity, so the identities are those of the
+unguarded updates (`Prog.gradRaw`); for collinear atoms the guarded gradient is zero
+(`angleA_gradR_collinear`, `angleB_gradR_collinear`).
 -/
 import OptRs.Calc.Real
 import OptRs.Model.Energy
@@ -25,6 +31,139 @@ def BendRegular (ρ : Nat → ℝ) : Prop :=
       (√((ρ 0 - ρ 3) ^ 2 + (ρ 1 - ρ 4) ^ 2 + (ρ 2 - ρ 5) ^ 2) *
         √((ρ 6 - ρ 3) ^ 2 + (ρ 7 - ρ 4) ^ 2 + (ρ 8 - ρ 5) ^ 2))) ^ 2
 
+/-! ### The clamp and the guard -/
+
+/-- The cosine of the bend angle as `angle_value` computes it (the argument of its `clamp(-1., 1.).acos()`). -/
+def bendCos : Ex :=
+  .div (dot (vsub (pos 0) (pos 1)) (vsub (pos 2) (pos 1)))
+    (.mul (len (vsub (pos 0) (pos 1))) (len (vsub (pos 2) (pos 1))))
+
+theorem angleValue_eq : angleValue 0 1 2 = .acos (.clamp1 bendCos) := rfl
+
+theorem bendCos_evalR (ρ : Nat → ℝ) : bendCos.evalR ρ =
+    ((ρ 0 - ρ 3) * (ρ 6 - ρ 3) + (ρ 1 - ρ 4) * (ρ 7 - ρ 4) + (ρ 2 - ρ 5) * (ρ 8 - ρ 5)) /
+      (√((ρ 0 - ρ 3) ^ 2 + (ρ 1 - ρ 4) ^ 2 + (ρ 2 - ρ 5) ^ 2) *
+        √((ρ 6 - ρ 3) ^ 2 + (ρ 7 - ρ 4) ^ 2 + (ρ 8 - ρ 5) ^ 2)) := by
+  simp only [bendCos, vsub, dot, len, pos, Ex.evalR]
+
+/-- Under `BendRegular` the cosine is strictly inside `(-1, 1)`: the clamp is the identity there. -/
+theorem bendCos_mem (ρ : Nat → ℝ) (h : BendRegular ρ) : -1 < bendCos.evalR ρ ∧ bendCos.evalR ρ < 1 := by
+  rw [bendCos_evalR]
+  exact abs_lt.mp ((sq_lt_one_iff_abs_lt_one _).mp (sub_pos.mp h.2.2))
+
+/-- Over the reals the value of `angle_value` is that of the unclamped expression, everywhere. -/
+theorem angleValue_evalR_raw (ρ : Nat → ℝ) : (angleValue 0 1 2).evalR ρ = (Ex.acos bendCos).evalR ρ := by
+  rw [angleValue_eq, Ex.evalR_acos_clamp1]
+
+/-- Under `BendRegular` so is its tangent. -/
+theorem angleValue_evalD_raw (ρ δ : Nat → ℝ) (h : BendRegular ρ) :
+    (angleValue 0 1 2).evalD ρ δ = (Ex.acos bendCos).evalD ρ δ := by
+  rw [angleValue_eq, Ex.evalD_acos_clamp1 ρ δ bendCos (bendCos_mem ρ h).1 (bendCos_mem ρ h).2]
+
+/-- The value both gradient bodies test before adding anything (`v20` in kind A, `v21` in kind B):
+`sin θ` computed as `√(−P²/(A·B) + 1)` with `P = r_ij · r_kj`, `A = |r_ij|²`, `B = |r_kj|²`. -/
+noncomputable def bendGuard (ρ : Nat → ℝ) : ℝ :=
+  √(-((ρ 0 - ρ 3) * (ρ 6 - ρ 3) + (ρ 1 - ρ 4) * (ρ 7 - ρ 4) + (ρ 2 - ρ 5) * (ρ 8 - ρ 5)) ^ 2 /
+      (((ρ 0 - ρ 3) ^ 2 + (ρ 1 - ρ 4) ^ 2 + (ρ 2 - ρ 5) ^ 2) *
+        ((ρ 6 - ρ 3) ^ 2 + (ρ 7 - ρ 4) ^ 2 + (ρ 8 - ρ 5) ^ 2)) + 1)
+
+theorem angleA_guard_val (ρ : Nat → ℝ) : Prog.envR ρ angleAGrad.lets 120 = bendGuard ρ := by
+  simp only [angleAGrad, Prog.envR, Ex.evalR, Num.toReal, bendGuard,
+    angleA_v0, angleA_v1, angleA_v2, angleA_v3, angleA_v4, angleA_v5, angleA_v6, angleA_v7, angleA_v8,
+    angleA_v9, angleA_v10, angleA_v11, angleA_v12, angleA_v13, angleA_v14, angleA_v15, angleA_v16,
+    angleA_v17, angleA_v18, angleA_v19, angleA_v20, angleA_v21, angleA_v22]
+  simp
+  have e1 : (-ρ 3 + ρ 6) = (ρ 6 - ρ 3) := by ring
+  have e2 : (-ρ 4 + ρ 7) = (ρ 7 - ρ 4) := by ring
+  have e3 : (-ρ 5 + ρ 8) = (ρ 8 - ρ 5) := by ring
+  simp only [e1, e2, e3]
+
+theorem angleB_guard_val (ρ : Nat → ℝ) : Prog.envR ρ angleBGrad.lets 121 = bendGuard ρ := by
+  simp only [angleBGrad, Prog.envR, Ex.evalR, Num.toReal, bendGuard,
+    angleB_v0, angleB_v1, angleB_v2, angleB_v3, angleB_v4, angleB_v5, angleB_v6, angleB_v7, angleB_v8,
+    angleB_v9, angleB_v10, angleB_v11, angleB_v12, angleB_v13, angleB_v14, angleB_v15, angleB_v16,
+    angleB_v17, angleB_v18, angleB_v19, angleB_v20, angleB_v21, angleB_v22]
+  simp
+  have e1 : (-ρ 3 + ρ 6) = (ρ 6 - ρ 3) := by ring
+  have e2 : (-ρ 4 + ρ 7) = (ρ 7 - ρ 4) := by ring
+  have e3 : (-ρ 5 + ρ 8) = (ρ 8 - ρ 5) := by ring
+  simp only [e1, e2, e3]
+
+-- stated with `rw`, not `rfl`: the kernel must not be asked to compare `(var n).evalR (envR ..)` with the
+-- unfolded program by evaluation
+theorem evalR_var_eq (ρ : Nat → ℝ) (n : Nat) : (Ex.var n).evalR ρ = ρ n := by rw [Ex.evalR]
+
+/-- The guarded gradient of kind A: the updates when the guard value is positive, nothing otherwise. -/
+theorem angleA_gradR_eq (ρ : Nat → ℝ) (s : Nat) :
+    angleAGrad.gradR ρ s = if 0 < bendGuard ρ then angleAGrad.gradRaw ρ s else 0 := by
+  have hg : angleAGrad.guard = some (.var 120) := rfl
+  rw [Prog.gradR_of_guard angleAGrad _ hg, evalR_var_eq, angleA_guard_val]
+
+/-- The guarded gradient of kind B. -/
+theorem angleB_gradR_eq (ρ : Nat → ℝ) (s : Nat) :
+    angleBGrad.gradR ρ s = if 0 < bendGuard ρ then angleBGrad.gradRaw ρ s else 0 := by
+  have hg : angleBGrad.guard = some (.var 121) := rfl
+  rw [Prog.gradR_of_guard angleBGrad _ hg, evalR_var_eq, angleB_guard_val]
+
+/-- With non-zero bond vectors the guard value is `√(1 − cos² θ)`. -/
+theorem bendGuard_eq (ρ : Nat → ℝ)
+    (ha : 0 < (ρ 0 - ρ 3) ^ 2 + (ρ 1 - ρ 4) ^ 2 + (ρ 2 - ρ 5) ^ 2)
+    (hb : 0 < (ρ 6 - ρ 3) ^ 2 + (ρ 7 - ρ 4) ^ 2 + (ρ 8 - ρ 5) ^ 2) :
+    bendGuard ρ = √(1 - (bendCos.evalR ρ) ^ 2) := by
+  rw [bendCos_evalR, bendGuard, div_pow, mul_pow, Real.sq_sqrt ha.le, Real.sq_sqrt hb.le]
+  congr 1
+  ring
+
+/-- Under `BendRegular` the guard passes. -/
+theorem bendGuard_pos (ρ : Nat → ℝ) (h : BendRegular ρ) : 0 < bendGuard ρ := by
+  rw [bendGuard_eq ρ h.1 h.2.1, bendCos_evalR]
+  exact Real.sqrt_pos.mpr h.2.2
+
+theorem angleA_gradR_regular (ρ : Nat → ℝ) (h : BendRegular ρ) (s : Nat) :
+    angleAGrad.gradR ρ s = angleAGrad.gradRaw ρ s := by
+  rw [angleA_gradR_eq, if_pos (bendGuard_pos ρ h)]
+
+theorem angleB_gradR_regular (ρ : Nat → ℝ) (h : BendRegular ρ) (s : Nat) :
+    angleBGrad.gradR ρ s = angleBGrad.gradRaw ρ s := by
+  rw [angleB_gradR_eq, if_pos (bendGuard_pos ρ h)]
+
+/-! ### Collinear atoms: the guarded gradient is zero -/
+
+/-- Collinear bend geometry: `r_ij ≠ 0`, `r_kj ≠ 0` and `1 − cos² θ ≤ 0` (the angle is `0` or `π`) — the
+configurations at which the unguarded updates divide by zero. -/
+def BendCollinear (ρ : Nat → ℝ) : Prop :=
+  0 < (ρ 0 - ρ 3) ^ 2 + (ρ 1 - ρ 4) ^ 2 + (ρ 2 - ρ 5) ^ 2 ∧
+  0 < (ρ 6 - ρ 3) ^ 2 + (ρ 7 - ρ 4) ^ 2 + (ρ 8 - ρ 5) ^ 2 ∧
+  1 - (((ρ 0 - ρ 3) * (ρ 6 - ρ 3) + (ρ 1 - ρ 4) * (ρ 7 - ρ 4) + (ρ 2 - ρ 5) * (ρ 8 - ρ 5)) /
+      (√((ρ 0 - ρ 3) ^ 2 + (ρ 1 - ρ 4) ^ 2 + (ρ 2 - ρ 5) ^ 2) *
+        √((ρ 6 - ρ 3) ^ 2 + (ρ 7 - ρ 4) ^ 2 + (ρ 8 - ρ 5) ^ 2))) ^ 2 ≤ 0
+
+theorem bendGuard_not_pos (ρ : Nat → ℝ) (h : BendCollinear ρ) : ¬ 0 < bendGuard ρ := by
+  rw [bendGuard_eq ρ h.1 h.2.1, bendCos_evalR, Real.sqrt_eq_zero_of_nonpos h.2.2]
+  exact lt_irrefl 0
+
+/-- Whenever the guard value is not positive, kind A adds nothing. -/
+theorem angleA_gradR_of_guard_not_pos (ρ : Nat → ℝ) (h : ¬ 0 < bendGuard ρ) (s : Nat) :
+    angleAGrad.gradR ρ s = 0 := by
+  rw [angleA_gradR_eq, if_neg h]
+
+theorem angleB_gradR_of_guard_not_pos (ρ : Nat → ℝ) (h : ¬ 0 < bendGuard ρ) (s : Nat) :
+    angleBGrad.gradR ρ s = 0 := by
+  rw [angleB_gradR_eq, if_neg h]
+
+/-- **Collinear atoms, kind A**: every slot of the gradient contribution is zero (before the repair the
+updates evaluated `…/sin θ` with `sin θ = 0`). -/
+theorem angleA_gradR_collinear (ρ : Nat → ℝ) (h : BendCollinear ρ) (s : Nat) : angleAGrad.gradR ρ s = 0 :=
+  angleA_gradR_of_guard_not_pos ρ (bendGuard_not_pos ρ h) s
+
+/-- **Collinear atoms, kind B.** -/
+theorem angleB_gradR_collinear (ρ : Nat → ℝ) (h : BendCollinear ρ) (s : Nat) : angleBGrad.gradR ρ s = 0 :=
+  angleB_gradR_of_guard_not_pos ρ (bendGuard_not_pos ρ h) s
+
+/-- The hypothesis is satisfiable: a straight angle, `i = (1,0,0)`, `j = (0,0,0)`, `k = (-1,0,0)`. -/
+example : BendCollinear (fun n => if n = 0 then 1 else if n = 6 then -1 else 0) := by
+  simp [BendCollinear]
+
 /-! ### Per-slot identities -/
 
 -- the shared unfolding script lists the definitions of both kinds; each use needs only one of them
@@ -33,8 +172,12 @@ set_option linter.unusedSimpArgs false
 set_option hygiene false in
 /-- Unfold both sides of a bend identity to real arithmetic over `ρ`. -/
 macro "bend_unfold" : tactic => `(tactic| (
+  have hθD := fun δ => angleValue_evalD_raw ρ δ h
   obtain ⟨ha, hb, hc⟩ := h
-  simp only [angleAE, angleBE, angleAGrad, angleBGrad, Prog.gradR, List.lookup, Prog.envR, angleValue,
+  -- the energy down to `angle_value`, whose clamp is then dropped (it is the identity here)
+  simp only [angleAE, angleBE, one, two, Ex.evalD, Ex.evalR, Num.toReal]
+  simp only [hθD, angleValue_evalR_raw]
+  simp only [angleAGrad, angleBGrad, Prog.gradRaw, List.lookup, Prog.envR, bendCos, Ex.arccos_clamp,
     vsub, dot, len, pos, one, two, Ex.evalD, Ex.evalR, Num.toReal,
     angleA_v0, angleA_v1, angleA_v2, angleA_v3, angleA_v4, angleA_v5, angleA_v6, angleA_v7, angleA_v8,
     angleA_v9, angleA_v10, angleA_v11, angleA_v12, angleA_v13, angleA_v14, angleA_v15, angleA_v16,
@@ -76,6 +219,7 @@ macro "bend_close" : tactic => `(tactic| (
 
 set_option hygiene false in
 macro "bendA_slot" : tactic => `(tactic| (
+  rw [angleA_gradR_regular ρ h]
   bend_unfold
   set T := Real.sin (ρ 21 * Real.arccos (P / (√A * √B)))
   clear_value T
@@ -83,6 +227,7 @@ macro "bendA_slot" : tactic => `(tactic| (
 
 set_option hygiene false in
 macro "bendB_slot" : tactic => `(tactic| (
+  rw [angleB_gradR_regular ρ h]
   bend_unfold
   set T := Real.sin (2 * Real.arccos (P / (√A * √B)))
   clear_value T
@@ -192,16 +337,21 @@ theorem angleB_identity (ρ : Nat → ℝ) (h : BendRegular ρ) :
 
 /-! ### Regularity of the energy expressions -/
 
-/-- Under `BendRegular` the `acos` argument of `angle_value` is strictly inside `(-1, 1)` and all
+/-- Under `BendRegular` the `clamp`/`acos` argument of `angle_value` is strictly inside `(-1, 1)` and all
 denominators / radicands are non-degenerate. -/
 theorem angleValue_reg (ρ : Nat → ℝ) (h : BendRegular ρ) : (angleValue 0 1 2).Reg ρ := by
-  obtain ⟨ha, hb, hc⟩ := h
+  have hm := bendCos_mem ρ h
+  obtain ⟨ha, hb, _⟩ := h
   have hA0 : √((ρ 0 - ρ 3) ^ 2 + (ρ 1 - ρ 4) ^ 2 + (ρ 2 - ρ 5) ^ 2) ≠ 0 := (Real.sqrt_pos.mpr ha).ne'
   have hB0 : √((ρ 6 - ρ 3) ^ 2 + (ρ 7 - ρ 4) ^ 2 + (ρ 8 - ρ 5) ^ 2) ≠ 0 := (Real.sqrt_pos.mpr hb).ne'
-  have habs := abs_lt.mp ((sq_lt_one_iff_abs_lt_one _).mp (sub_pos.mp hc))
-  simp only [angleValue, vsub, dot, len, pos, Ex.Reg, Ex.evalR]
-  norm_num
-  exact ⟨⟨⟨ha, hb⟩, hA0, hB0⟩, habs.1, habs.2⟩
+  have hreg : bendCos.Reg ρ := by
+    simp only [bendCos, vsub, dot, len, pos, Ex.Reg, Ex.evalR]
+    norm_num
+    exact ⟨⟨ha, hb⟩, hA0, hB0⟩
+  rw [angleValue_eq]
+  simp only [Ex.Reg, Ex.evalR]
+  rw [Ex.clamp_eq_self hm.1 hm.2]
+  exact ⟨⟨hreg, hm⟩, hm⟩
 
 theorem angleA_reg (ρ : Nat → ℝ) (h : BendRegular ρ) (hn : ρ 21 ≠ 0) : angleAE.Reg ρ := by
   have hv := angleValue_reg ρ h
@@ -217,8 +367,8 @@ theorem angleB_reg (ρ : Nat → ℝ) (h : BendRegular ρ) : angleBE.Reg ρ := b
 
 theorem angleValue_evalR (ρ : Nat → ℝ) :
     (angleValue 0 1 2).evalR ρ = Spec.bondAngle (Spec.atom ρ 0) (Spec.atom ρ 1) (Spec.atom ρ 2) := by
-  simp only [angleValue, vsub, dot, len, pos, Ex.evalR, Spec.bondAngle, Spec.atom, Spec.vsub, Spec.dot,
-    Spec.norm]
+  simp only [angleValue, vsub, dot, len, pos, Ex.evalR, Ex.arccos_clamp, Spec.bondAngle, Spec.atom, Spec.vsub,
+    Spec.dot, Spec.norm]
 
 theorem angleA_closed_form (ρ : Nat → ℝ) :
     angleAE.evalR ρ = ρ 20 / ρ 21 ^ 2 *
@@ -250,12 +400,14 @@ theorem angleB_hasDerivAt (ρ : Nat → ℝ) (h : BendRegular ρ) (s : Nat) (hs 
 theorem angleA_gradR_untouched (ρ : Nat → ℝ) (s : Nat) (hs : 9 ≤ s) : angleAGrad.gradR ρ s = 0 := by
   have hl : angleAGrad.outs.lookup s = none := by
     simp [angleAGrad, List.lookup_eq_none_iff]; omega
-  simp only [Prog.gradR, hl]
+  have h0 : angleAGrad.gradRaw ρ s = 0 := by simp only [Prog.gradRaw, hl]
+  rw [angleA_gradR_eq, h0, ite_self]
 
 theorem angleB_gradR_untouched (ρ : Nat → ℝ) (s : Nat) (hs : 9 ≤ s) : angleBGrad.gradR ρ s = 0 := by
   have hl : angleBGrad.outs.lookup s = none := by
     simp [angleBGrad, List.lookup_eq_none_iff]; omega
-  simp only [Prog.gradR, hl]
+  have h0 : angleBGrad.gradRaw ρ s = 0 := by simp only [Prog.gradRaw, hl]
+  rw [angleB_gradR_eq, h0, ite_self]
 
 /-! ### The hypothesis is satisfiable -/
 
